@@ -44,7 +44,7 @@ theorem demo_nmpFloor (K : Keys) : NmpFloor (demoComp K) := fun _ d se beta h =>
 
 /-- the parameter laws of the `GoSane`-free argument hold for `demoComp` (window 44, unwrapped margin). -/
 theorem demo_aspLaws (K : Keys) : AspLaws (demoComp K) where
-  window44 := rfl
+  windowSafe := by show WSafe 44; decide
   rfp_shallow := fun d se beta hd _ _ h => by
     simp only [demoComp, Bool.and_eq_true, decide_eq_true_eq] at h
     have h2 : beta + d * 100 ≤ se := h.1.2
